@@ -43,10 +43,10 @@ func Open(stream io.ReaderAt) (*DB, error) {
 		return nil, ErrInvalidMagic
 	}
 	size := binary.LittleEndian.Uint32(magicAndSize[8:])
-	fileHeaderBuf := make([]byte, 8+4+size)
-	n, readErr = stream.ReadAt(fileHeaderBuf, 0)
-	if n < len(fileHeaderBuf) {
-		// ReadAt must return non-nil error here.
+	// NOTE: computed in 64 bits; 8+4+size wraps around in uint32 for sizes close to 2^32.
+	totalHeaderSize := int64(len(magicAndSize)) + int64(size)
+	fileHeaderBuf, readErr := readFirstBytes(stream, totalHeaderSize)
+	if readErr != nil {
 		return nil, readErr
 	}
 	db := new(DB)
@@ -55,9 +55,37 @@ func Open(stream io.ReaderAt) (*DB, error) {
 	if err := db.Header.Load(fileHeaderBuf); err != nil {
 		return nil, err
 	}
-	db.headerSize = int64(8 + 4 + size)
+	db.headerSize = totalHeaderSize
 	db.Stream = stream
 	return db, nil
+}
+
+// readFirstBytes reads the first `total` bytes of the stream.
+//
+// `total` comes from a length field of the file. The buffer therefore starts small and is
+// doubled only after everything read so far was actually delivered by the stream, so that a
+// corrupt length field cannot make the reader allocate more than about twice the bytes the
+// stream holds (instead of up to 4 GiB up front).
+func readFirstBytes(stream io.ReaderAt, total int64) ([]byte, error) {
+	const firstChunk = 64 << 10
+	buf := make([]byte, minInt64(total, firstChunk))
+	filled := 0
+	for {
+		n, err := stream.ReadAt(buf[filled:], int64(filled))
+		filled += n
+		if filled < len(buf) {
+			if err == nil {
+				err = io.ErrUnexpectedEOF
+			}
+			return nil, err
+		}
+		if int64(filled) == total {
+			return buf, nil
+		}
+		grown := make([]byte, minInt64(total, 2*int64(len(buf))))
+		copy(grown, buf)
+		buf = grown
+	}
 }
 
 func (db *DB) Prefetch(yes bool) {
@@ -105,6 +133,11 @@ func (db *DB) GetBucket(i uint) (*Bucket, error) {
 		return nil, fmt.Errorf("out of bounds bucket index: %d >= %d", i, db.Header.NumBuckets)
 	}
 
+	// The value size comes from the file; the entry stride (HashSize + value size) is kept in a uint8.
+	if db.Header.ValueSize == 0 || db.Header.ValueSize > maxValueSize {
+		return nil, fmt.Errorf("unsupported value size %d (must be 1..%d)", db.Header.ValueSize, maxValueSize)
+	}
+
 	// Fill bucket handle.
 	bucket := &Bucket{
 		BucketDescriptor: BucketDescriptor{
@@ -117,6 +150,10 @@ func (db *DB) GetBucket(i uint) (*Bucket, error) {
 	readErr := bucket.BucketHeader.readFrom(db.Stream, i)
 	if readErr != nil {
 		return nil, readErr
+	}
+	// The hash length comes from the file; entries are sliced with it (see unmarshalEntry).
+	if int(bucket.HashLen)+int(bucket.OffsetWidth) > int(bucket.Stride) {
+		return nil, fmt.Errorf("corrupt bucket header %d: hash length %d and value size %d exceed entry size %d", i, bucket.HashLen, bucket.OffsetWidth, bucket.Stride)
 	}
 	bucket.Entries = io.NewSectionReader(db.Stream, int64(bucket.FileOffset), int64(bucket.NumEntries)*int64(bucket.Stride))
 	if db.prefetch {
@@ -188,7 +225,8 @@ func (b *Bucket) Load(batchSize int) ([]Entry, error) {
 	if b.NumEntries > maxEntriesPerBucket {
 		return nil, fmt.Errorf("refusing to load bucket with %d entries", b.NumEntries)
 	}
-	entries := make([]Entry, 0, b.NumEntries)
+	// NumEntries comes from the file: do not reserve more than one batch up front.
+	entries := make([]Entry, 0, minInt64(int64(b.NumEntries), int64(batchSize)))
 
 	stride := int(b.Stride)
 	buf := make([]byte, batchSize*stride)
